@@ -6,7 +6,7 @@ from checks.seqs import replay_with_resume
 
 SPECDIR = os.path.join(vlib.SPECS, "str")
 OPS = ["?", "catc", "catc_", "catn", "catn_", "cats", "cats_", "cat", "cat_", "catf", "utf_catc", "getc", "getc_", "getn", "getn_",
-       "rtrim", "rtrim_", "ltrim", "ltrim_", "trim", "trim_", "setn", "setn_", "setm", "setm_", "exit", "cmpn", "cmps", "cmp"]
+       "rtrim", "rtrim_", "ltrim", "ltrim_", "trim", "trim_", "setn", "setn_", "setm", "setm_", "exit", "cmpn", "cmps", "cmp", "utf_len"]
 
 
 def configs(tier):
@@ -38,7 +38,7 @@ def run(pid, tier, replay=None):
         "the unchecked variants setn_/setm_ are only called within the capacity / not below the length; bytes exposed by a growing setn are written by the harness",
     ]
     exhaustive = True
-    opc = [0] * 29
+    opc = [0] * 30
     for name, consts in configs(tier):
         cfg = vlib.write_cfg(sc.path(name + ".cfg"), ["CONSTANTS"] + [" " + c for c in consts] + ["INIT Init", "NEXT Next", "VIEW view", "INVARIANT Inv", "ACTION_CONSTRAINT Emit"])
         out = sc.path("edges-%s.out" % name)
@@ -65,7 +65,7 @@ def run(pid, tier, replay=None):
             with open(files[-1]) as fh:
                 ck.sample(json.loads(fh.readline()))
     ck.part("coverage_by_operation", **{OPS[i]: n for i, n in enumerate(opc) if 0 < i < len(OPS)})
-    missing = [OPS[i] for i in range(1, 29) if opc[i] == 0]
+    missing = [OPS[i] for i in range(1, len(OPS)) if opc[i] == 0]
     if missing:
         raise Broken("vacuity: operations never exercised: %s" % missing)
     ck.cov["rule"] = ("every transition of the TLC state graphs of Str: short strings over the byte classes {a, space, NUL, >=0x80} with all operations and code points of every UTF-8 length; "
